@@ -1,4 +1,5 @@
 import CLModel.Proofs.Primary
+import CLModel.Gen.Verifier
 import CLModel.Model.Issuance
 import Mathlib.GroupTheory.OrderOfElement
 import Mathlib.Data.Nat.Prime.Basic
@@ -132,5 +133,11 @@ end algebra
 
 /-! non-vacuity: 3 has order 2·… in a toy group -/
 example : (2 : ℕ).Prime ∧ (3 : ℕ).Prime ∧ (2 : ℕ) ≠ 3 := ⟨Nat.prime_two, Nat.prime_three, by decide⟩
+
+/-- **names covered by the key proof, as in the source**: the only generator that may be missing
+from `xr_cap` is the legacy `master_secret`; every name of `xr_cap` must be in the key (recognised by
+the translator in `Prover::_check_credential_key_correctness_proof`) -/
+theorem key_proof_names_from_source :
+    Gen.keyProofExemptsOnlyMasterSecret = true ∧ Gen.keyProofNamesMustBeInKey = true := ⟨rfl, rfl⟩
 
 end CL.C06
